@@ -72,12 +72,8 @@ PARAMS = {
         "p": PROB, "a0": LOC, "a1": LOC, "t": (0.7, 1.8), "l": LSCALE, "y": (-2.0, 2.0),
     },
 }
-# parameters that move a guide's entropy or the model's likelihood scale (non-triviality rule)
-ENTROPY_OR_LIKSCALE = {"s", "s2", "s0", "s1", "q", "q2", "q1", "q20", "q21", "l"}
-
 THETA_KINDS = {"reparam", "reinforce", "plain", "enum", "freinforce"}  # parameters come from theta
 ADEV_KINDS = {"reparam", "reinforce", "enum", "freinforce"}  # sample through an ADEV primitive
-NOISY_KINDS = {"reparam", "reinforce", "plain", "freinforce", "const"}  # draw random numbers
 
 
 def names_of(struct):
@@ -605,9 +601,13 @@ def check_case(case, ctx=None):
             ctx.extra["stat_components"] = ctx.extra.get("stat_components", 0) + len(ses)
             ctx.extra["stat_se_stage1_sum"] = ctx.extra.get("stat_se_stage1_sum", 0.0) + float(sum(ses))
             cur = ctx.extra.get(f"detectable_bias_max_shard{ctx.shard:02d}")
-            worst = max(ses)
+            wn = max(report, key=lambda k: report[k])
+            worst = report[wn]
             if cur is None or float(str(cur).split()[0]) < stats.Z_THRESH * worst:
-                ctx.extra[f"detectable_bias_max_shard{ctx.shard:02d}"] = f"{stats.Z_THRESH * worst:.4f} (= 7 x largest stage-1 standard error, {sid}, n={n1})"
+                ctx.extra[f"detectable_bias_max_shard{ctx.shard:02d}"] = (
+                    f"{stats.Z_THRESH * worst:.4f} (= 7 x largest stage-1 standard error: d/d{wn} of {sid}, n={n1}, "
+                    f"exact value there {want[wn]:.3f})"
+                )
     if violated:
         raise Violation(
             f"bias:{struct['objective']}",
